@@ -64,7 +64,7 @@ theorem eff_push (s : Sess) (m : OutMsg) (hp : s.cfg.persist = true) (ha : isAdm
   exact ⟨⟨rfl, rfl, rfl, rfl, rfl⟩, rfl, rfl, by simp [wl, Sess.emit, Sess.setToSend, wiresOf_append, wiresOf], rfl,
     Grow.save true s.store { m with seq := s.store.sender } (fun _ => ha)⟩
 
-/-- the message as `prep` numbers it: header stamped (tag 369), next outbound number -/
+/-- the message as `prepMessageForSend` sends it: header filled (`stamp`), numbered -/
 def numbered (s : Sess) (m : OutMsg) : OutMsg := { stamp s m with seq := s.store.sender }
 
 theorem persistOut_toSend (s : Sess) (n : Int) (m : OutMsg) : (s.persistOut n m).toSend = s.toSend := by
@@ -75,7 +75,7 @@ theorem eff_queueForSend (s : Sess) (m : OutMsg) (hm : OutOK m) (hp : s.cfg.pers
   unfold queueForSend
   rw [prep_admin s m hm]
   simp only [persistOut_toSend]
-  exact eff_push s (stamp s m) hp (hm.stamp s).adm _
+  exact eff_push s (stamp s m) hp hm.adm _
 
 theorem eff_sendInReplyTo_on (s : Sess) (m : OutMsg) (hm : OutOK m) (hp : s.cfg.persist = true) (hl : s.st.loggedOn = true) (ho : s.out = true) :
     Eff s (sendInReplyTo s m) 1 (s.toSend ++ [numbered s m]) [] := by
@@ -83,7 +83,7 @@ theorem eff_sendInReplyTo_on (s : Sess) (m : OutMsg) (hm : OutOK m) (hp : s.cfg.
   simp only [hl, Bool.not_true, Bool.false_eq_true, if_false]
   rw [prep_admin s m hm]
   simp only [persistOut_toSend]
-  have h1 := eff_push s (stamp s m) hp (hm.stamp s).adm (s.toSend ++ [numbered s m])
+  have h1 := eff_push s (stamp s m) hp hm.adm (s.toSend ++ [numbered s m])
   have h2 := eff_sendQueued _ (show ((s.persistOut s.store.sender { stamp s m with seq := s.store.sender }).setToSend (s.toSend ++ [numbered s m])).out = true by
     rw [← ho]; exact (h1.fr.out))
   have h3 : Eff s _ (1 + 0) ([] ++ (s.toSend ++ [numbered s m])) [] := h1.trans h2
@@ -101,7 +101,7 @@ theorem eff_dropAndSend (s : Sess) (m : OutMsg) (hm : OutOK m) (hp : s.cfg.persi
   unfold dropAndSend
   rw [prep_admin s m hm]
   simp only []
-  have h1 := eff_push s (stamp s m) hp (hm.stamp s).adm [numbered s m]
+  have h1 := eff_push s (stamp s m) hp hm.adm [numbered s m]
   have h2 := eff_sendQueued _ (show ((s.persistOut s.store.sender { stamp s m with seq := s.store.sender }).setToSend [numbered s m]).out = true by
     rw [← ho]; exact (h1.fr.out))
   have h3 : Eff s _ (1 + 0) ([] ++ [numbered s m]) [] := h1.trans h2
